@@ -55,7 +55,7 @@ def obligations(tier):
             if body not in ('ok', 'fail') and suffix not in ('', '; charset=utf-8'):
                 continue
             for status in (('default',) if integ == 'werkzeug' else ('default', 'bycode')):
-                if status == 'bycode' and body not in ('ok', 'fail', 'batch'):
+                if status == 'bycode' and suffix not in ('', '; charset=utf-8'):
                     continue
                 obs.append({'h': 'http', 'integ': integ, 'base': base, 'suffix': suffix, 'body': body, 'status': status})
     for integ, target, nep in it.product(('flask', 'aiohttp'), (0, 1, 2), (2, 3)):
